@@ -127,7 +127,7 @@ func init() {
 			}
 			sort.Slice(vars, func(i, j int) bool { return vars[i].Pkg().Path()+vars[i].Name() < vars[j].Pkg().Path()+vars[j].Name() })
 			for _, v := range vars {
-				name := rel(v.Pkg().Path()) + "." + v.Name()
+				name := canonObjName(v)
 				hs := hits[v]
 				var hows []string
 				for _, h := range hs {
@@ -154,7 +154,7 @@ func init() {
 					continue
 				}
 				sig := u.Obj.Type().(*types.Signature)
-				if sig.Recv() == nil || !strings.Contains(sig.Recv().Type().String(), "mapEntriesByKey") {
+				if sig.Recv() == nil || !strings.Contains(canonTypes(sig.Recv().Type().String()), "mapEntriesByKey") {
 					continue
 				}
 				info := u.Pkg.TypesInfo
